@@ -427,7 +427,7 @@ def chunked(body, cut):
     return out + b"0" + CRLF + CRLF
 
 
-def post(body, content_type, t, framing, cut):
+def post(body, content_type, t, framing, cut, frags=()):
     """fresh application, POST /u; returns (status, {'forms','files','post'} snapshots or {})"""
     app = ombott.Ombott({"max_memfile_size": t})
     seen = {}
@@ -448,7 +448,7 @@ def post(body, content_type, t, framing, cut):
     else:
         wire = body
         env["CONTENT_LENGTH"] = str(len(body))
-    env["wsgi.input"] = stubs.SymStream(len(wire), [], data=wire)
+    env["wsgi.input"] = stubs.SymStream(len(wire), list(frags), data=wire)
     got = []
     b"".join(app(env, lambda st, hd, ei=None: got.append(st)))
     return int(got[0][:3]), seen
@@ -546,10 +546,17 @@ def make_framing(framing):
     body, enc = encode(b"b", FRAMING_FORM)
     need = budget(enc, FRAMING_FORM)
 
+    lens = list(range(1, len(body) + 1))
+
     def q(v: int):
         if framing == "chunked":
             assume(0 <= v <= len(body))
             status, seen = post(body, "multipart/form-data; boundary=b", need + 4, "chunked", int(v))
+        elif framing.startswith("short"):
+            # a server whose read() hands out what has arrived: the first read returns v bytes only (every v), then full reads
+            assume(0 <= v < len(body))
+            t = len(body) + 1 if framing == "short" else need + 3
+            status, seen = post(body, "multipart/form-data; boundary=b", t, "cl", 0, [lens[v]])
         else:
             assume(need <= v <= len(body) + 1)
             status, seen = post(body, "multipart/form-data; boundary=b", int(v), "cl", 0)
@@ -657,11 +664,13 @@ def queries(tier):
             wsgi(kinds, hot, "chunked", "body", 2, 1, 3, 900)
         for kinds, framing in [("T", "cl"), ("TF", "cl"), ("FT", "chunked"), ("TFT", "chunked"), ("FF", "cl")]:
             wsgi(kinds, None, framing, "all", 2, 0, 2, 600)
-    for framing in ("chunked", "cl"):
+    for framing in ("chunked", "cl", "short", "short-small"):
         fn, n = make_framing(framing)
         out.append(Q("framing/%s" % framing, fn,
                      "fixed 4-part form (repeated names, upload with delimiter look-alikes) of %d bytes, %s" % (n, "two chunks cut at every offset 0..len" if framing == "chunked" else
-                                                            "Content-Length framing with every max_memfile_size from the in-memory budget to len+1"),
+                                                            "Content-Length framing with every max_memfile_size from the in-memory budget to len+1" if framing == "cl" else
+                                                            "Content-Length framing, the server's first read() returns only v bytes, every v in 1..len; max_memfile_size %s"
+                                                            % ("len+1" if framing == "short" else "in-memory budget + 3")),
                      timeout=600, expect_cover=["delivered"], family="framing"))
     return out
 
